@@ -3,7 +3,7 @@
 // patterns with GRAPH <iri> / GRAPH ?g blocks (WHERE evaluated once on the pre-operation dataset by brute-force
 // join, template quads with an unbound variable skipped, all deletions before all insertions, counts = quads
 // that actually changed, graph identities created by inserts and never removed by deletes) is run side by side
-// with execute_sparql_update over every sequence of <= 3 (thorough: 4) operations out of 16, from 2 initial
+// with execute_sparql_update over every sequence of <= 3 (thorough: 4) operations out of 20, from 2 initial
 // datasets; after every step the whole dataset (all graphs), the graph catalog and the reported counts are compared.
 use kolibrie::execute_query::execute_sparql_update;
 use kolibrie::sparql_database::SparqlDatabase;
@@ -19,7 +19,7 @@ struct Pat { g: G, s: T, p: T, o: T }
 #[derive(Clone, Debug)]
 enum Form { InsertData, DeleteData, DeleteWhere, Modify }
 #[derive(Clone, Debug)]
-struct Op { form: Form, delete: Vec<Pat>, insert: Vec<Pat>, pattern: Vec<Pat> }
+struct Op { form: Form, delete: Vec<Pat>, insert: Vec<Pat>, pattern: Vec<Pat>, union_with: Vec<Pat> }   // WHERE { pattern } or WHERE { { pattern } UNION { union_with } }
 
 type Quad = (String, String, String, Option<String>);
 #[derive(Clone, Default, Debug, PartialEq)]
@@ -31,7 +31,8 @@ use T::{I, V};
 
 fn ops() -> Vec<Op> {
     let p = || I("p"); let q = || I("q");
-    let m = |form, delete, insert, pattern| Op { form, delete, insert, pattern };
+    let m = |form, delete, insert, pattern| Op { form, delete, insert, pattern, union_with: vec![] };
+    let u = |delete, insert, pattern, union_with| Op { form: Form::Modify, delete, insert, pattern, union_with };
     vec![
         /* 0*/ m(Form::InsertData, vec![], vec![pat(G::Iri("g1"), I("a"), p(), I("b"))], vec![]),
         /* 1*/ m(Form::InsertData, vec![], vec![pat(G::Default, I("a"), p(), I("b")), pat(G::Iri("g2"), I("a"), p(), I("c"))], vec![]),
@@ -49,6 +50,12 @@ fn ops() -> Vec<Op> {
         /*13*/ m(Form::Modify, vec![pat(G::Var("g"), V("s"), p(), V("o"))], vec![], vec![pat(G::Var("g"), V("s"), p(), V("o")), pat(G::Default, V("s"), p(), V("o"))]),
         /*14*/ m(Form::Modify, vec![pat(G::Default, V("s"), p(), V("o"))], vec![pat(G::Iri("g3"), V("s"), p(), V("o"))], vec![pat(G::Default, V("s"), p(), V("o"))]),
         /*15*/ m(Form::DeleteData, vec![pat(G::Default, I("a"), p(), I("b")), pat(G::Iri("g2"), I("a"), p(), I("c"))], vec![], vec![]),
+        // UNION branches that bind different variables: ?g stays unbound in the solutions of the second branch,
+        // a template quad under GRAPH ?g is skipped for exactly those solutions
+        /*16*/ u(vec![], vec![pat(G::Var("g"), V("s"), q(), V("o"))], vec![pat(G::Var("g"), V("s"), p(), V("o"))], vec![pat(G::Default, V("s"), p(), V("o"))]),
+        /*17*/ u(vec![pat(G::Var("g"), V("s"), p(), V("o"))], vec![], vec![pat(G::Var("g"), V("s"), p(), V("o"))], vec![pat(G::Default, V("s"), p(), V("o"))]),
+        /*18*/ u(vec![pat(G::Var("g"), V("s"), p(), V("o"))], vec![pat(G::Var("g"), V("s"), q(), V("o")), pat(G::Default, V("s"), q(), V("o"))], vec![pat(G::Var("g"), V("s"), p(), V("o"))], vec![pat(G::Default, V("s"), p(), V("o"))]),
+        /*19*/ u(vec![], vec![pat(G::Iri("g3"), V("s"), p(), V("o")), pat(G::Iri("g3"), V("s"), q(), V("z"))], vec![pat(G::Default, V("s"), p(), V("o"))], vec![pat(G::Iri("g1"), V("s"), p(), V("z"))]),
     ]
 }
 
@@ -70,7 +77,7 @@ fn text(op: &Op) -> String {
             let mut s = String::new();
             if !op.delete.is_empty() { s.push_str(&format!("DELETE {{{} }} ", block(&op.delete))); }
             if !op.insert.is_empty() { s.push_str(&format!("INSERT {{{} }} ", block(&op.insert))); }
-            format!("{}WHERE {{{} }}", s, block(&op.pattern))
+            if op.union_with.is_empty() { format!("{}WHERE {{{} }}", s, block(&op.pattern)) } else { format!("{}WHERE {{ {{{} }} UNION {{{} }} }}", s, block(&op.pattern), block(&op.union_with)) }
         }
     }
 }
@@ -113,7 +120,11 @@ fn apply(m: &mut Model, op: &Op) -> (usize, usize) {
         Form::InsertData => (BTreeSet::new(), instantiate(&op.insert, &one)),
         Form::DeleteData => (instantiate(&op.delete, &one), BTreeSet::new()),
         Form::DeleteWhere => { let s = solutions(m, &op.pattern); (instantiate(&op.pattern, &s), BTreeSet::new()) }
-        Form::Modify => { let s = solutions(m, &op.pattern); (instantiate(&op.delete, &s), instantiate(&op.insert, &s)) }
+        Form::Modify => {
+            let mut s = solutions(m, &op.pattern);
+            if !op.union_with.is_empty() { s.extend(solutions(m, &op.union_with)); }
+            (instantiate(&op.delete, &s), instantiate(&op.insert, &s))
+        }
     };
     let mut deleted = 0; let mut inserted = 0;
     for x in &d { if m.quads.remove(x) { deleted += 1; } }
